@@ -79,29 +79,6 @@ Proof.
   apply andb_true_iff in H as [H1 H2]. unfold rchar at 1. rewrite H1. cbn [orb]. now apply IH.
 Qed.
 
-Lemma start_end_marshal {A} (f : list N -> option A) (ms : A -> list N) st en :
-  (forall x, f (ms x) = Some x) -> (forall x, rstr (ms x) = true) -> (forall x, ms x <> []) ->
-  start_end f (ms st ++ [DASH] ++ opt_str ms en) = Some (st, en).
-Proof.
-  intros Hf Hr Hne. unfold start_end. cbn [app].
-  rewrite split_on_cons by (apply rstr_nosep; [apply Hr|reflexivity]).
-  destruct en as [e|]; cbn [opt_str].
-  - rewrite split_on_clean by (apply rstr_nosep; [apply Hr|reflexivity]).
-    rewrite Hf. specialize (Hne e). destruct (ms e) eqn:E; [congruence|]. rewrite <- E, Hf. reflexivity.
-  - cbn [split_on]. now rewrite Hf.
-Qed.
-
-Lemma value_plain_ok {A} (ms : A -> list N) st en :
-  (forall x, rstr (ms x) = true) -> plain_ok SEMI (ms st ++ [DASH] ++ opt_str ms en) = true.
-Proof.
-  intros Hr. unfold plain_ok. rewrite !nosep_app.
-  rewrite (rstr_nosep SEMI _ (Hr st) eq_refl). cbn [nosep forallb andb].
-  assert (Hen : nosep SEMI (opt_str ms en) = true) by (destruct en; [apply rstr_nosep; [apply Hr|reflexivity]|reflexivity]).
-  change (forallb (fun c => negb (c =? SEMI)) (opt_str ms en)) with (nosep SEMI (opt_str ms en)). rewrite Hen. cbn [andb negb N.eqb DASH SEMI Pos.eqb].
-  pose proof (Hr st) as H. destruct (ms st) as [|c t]; [reflexivity|]. cbn [app]. cbn [rstr forallb] in H.
-  apply andb_true_iff in H as [H _]. unfold rchar, is_digit, COL, DOT in H. unfold DQ. lia.
-Qed.
-
 (* ---- UTC ---- *)
 Definition wf_utc (t : utc) : bool :=
   (u_year t <? 10000) && (1 <=? u_month t) && (u_month t <=? 12) && (1 <=? u_day t) && (u_day t <=? days_in (u_month t) (u_year t))
@@ -190,7 +167,10 @@ Proof.
     destruct en as [e|]; cbn [opt_str].
     + destruct Hen as (Hfe & Hre & Hnee).
       rewrite split_on_clean by (apply rstr_nosep; [apply Hre|reflexivity]).
-      rewrite Hf. destruct (ms e) eqn:E; [congruence|]. rewrite <- E, Hfe. reflexivity.
+      rewrite Hf.
+      assert (Hm : forall (B : Type) (l : list N) (a b : B), l <> [] -> match l with [] => a | _ :: _ => b end = b)
+        by (intros B [|? ?] a b Hl; [congruence|reflexivity]).
+      rewrite Hm by exact Hnee. rewrite Hfe. reflexivity.
     + cbn [split_on]. now rewrite Hf.
   - unfold plain_ok. rewrite !nosep_app. rewrite (rstr_nosep SEMI _ Hr eq_refl). cbn [nosep forallb andb].
     assert (Hn : nosep SEMI (opt_str ms en) = true).
@@ -280,4 +260,179 @@ Proof.
   intros Ho H1 H2 H3. apply range_roundtrip_partial; [exact Ho| |exact H3].
   cbn [r_value value_codec_ok]. split; [now apply utc_codec_ok|]. destruct en as [e|]; [|exact I].
   cbn [opt_all] in H2. now apply utc_codec_ok.
+Qed.
+
+(* ---- NPT: what the unchanged code computes (F8) ---- *)
+Lemma to_int64_range x : (- Z.of_N P63 <= to_int64 x < Z.of_N P63)%Z.
+Proof.
+  unfold to_int64, MININT. change (Z.of_N P63) with 9223372036854775808%Z.
+  destruct x as [| |neg m e]; try lia.
+  set (v := if (0 <=? e)%Z then m * pow2 (Z.to_N e) else m / pow2 (Z.to_N (- e))).
+  change P63 with 9223372036854775808. destruct (N.leb_spec 9223372036854775808 v); [lia|]. destruct neg; lia.
+Qed.
+Lemma wrap64_small z : (- Z.of_N P63 <= z < Z.of_N P63)%Z -> wrap64 z = z.
+Proof.
+  unfold wrap64, w64z, s64z. change (Z.of_N P63) with 9223372036854775808%Z. change (Z.of_N P64) with 18446744073709551616%Z.
+  intros H. destruct (Z.ltb_spec (z mod 18446744073709551616) 9223372036854775808); lia.
+Qed.
+
+(* format_float prints digits and at most one '.' *)
+Definition fchar (c : N) : bool := is_digit c || (c =? DOT).
+Lemma strip_zeros_rev_digits l : all_digits l = true -> all_digits (strip_zeros_rev l) = true.
+Proof.
+  induction l as [|x t IH]; intros H; [reflexivity|]. cbn [strip_zeros_rev].
+  unfold all_digits in *. cbn [forallb] in H. apply andb_true_iff in H as [H1 H2].
+  destruct x as [|p]; [cbn [forallb]; now rewrite H1, H2|].
+  repeat (destruct p as [p|p|]; try (cbn [forallb]; now rewrite H1, H2)). now apply IH.
+Qed.
+Lemma all_digits_rev l : all_digits (rev l) = all_digits l.
+Proof.
+  unfold all_digits. induction l as [|x t IH]; [reflexivity|]. cbn [rev forallb]. rewrite forallb_app, IH. cbn [forallb].
+  now rewrite andb_true_r, andb_comm.
+Qed.
+Lemma pad_left_digits w l : all_digits l = true -> all_digits (pad_left w l) = true.
+Proof.
+  unfold pad_left. generalize (N.of_nat w) as ww. revert l.
+  induction w as [|w IH]; intros l ww Hl; cbn [pad_left_aux]; [exact Hl|].
+  destruct (nlen l <? ww); [|exact Hl]. apply IH. unfold all_digits in *. cbn [forallb]. now rewrite Hl.
+Qed.
+Lemma digits_fchar l : all_digits l = true -> forallb fchar l = true.
+Proof.
+  induction l as [|x t IH]; [reflexivity|]. unfold all_digits. cbn [forallb]. intros H.
+  apply andb_true_iff in H as [H1 H2]. unfold fchar at 1. rewrite H1. cbn [orb]. now apply IH.
+Qed.
+Lemma fmt_fixed_chars d k : forallb fchar (fmt_fixed d k) = true /\ fmt_fixed d k <> [].
+Proof.
+  unfold fmt_fixed. destruct (k <=? 0)%Z.
+  - split; [apply digits_fchar, fmt_uint_digits|apply fmt_uint_nonnil].
+  - destruct (_ =? 0).
+    + split; [apply digits_fchar, fmt_uint_digits|apply fmt_uint_nonnil].
+    + split.
+      * rewrite !forallb_app. rewrite (digits_fchar _ (fmt_uint_digits _)). cbn [forallb andb fchar]. 
+        replace (is_digit 46 || (46 =? DOT)) with true by reflexivity. cbn [andb].
+        apply digits_fchar. rewrite all_digits_rev. apply strip_zeros_rev_digits. rewrite all_digits_rev.
+        apply pad_left_digits, fmt_uint_digits.
+      * pose proof (fmt_uint_nonnil (d / pow10 (Z.to_N k))). destruct (fmt_uint (d / pow10 (Z.to_N k))); [congruence|discriminate].
+Qed.
+Lemma format_float_chars neg m e : neg = false -> forallb fchar (format_float (DFin neg m e)) = true /\ format_float (DFin neg m e) <> [].
+Proof.
+  intros ->. unfold format_float. destruct (m =? 0); [split; [reflexivity|discriminate]|].
+  destruct (shortest_loop _ _ _ _ _ _) as [d k]. cbn [app]. apply fmt_fixed_chars.
+Qed.
+Lemma fchar_rstr l : forallb fchar l = true -> rstr l = true /\ nosep COL l = true.
+Proof.
+  induction l as [|x t IH]; intros H; [split; reflexivity|]. cbn [forallb] in H. apply andb_true_iff in H as [H1 H2].
+  destruct (IH H2) as [I1 I2]. unfold fchar in H1. split.
+  - cbn [rstr forallb]. fold (rstr t). rewrite I1, andb_true_r. unfold rchar.
+    apply orb_true_iff in H1 as [H1|H1]; rewrite H1; cbn [orb]; rewrite ?orb_true_r; reflexivity.
+  - cbn [nosep forallb]. fold (nosep COL t). rewrite I2, andb_true_r. unfold is_digit, DOT, COL in *. lia.
+Qed.
+
+(* Under Go's contract ParseFloat (FormatFloat x) = x, an NPT time d >= 0 comes back as
+   int64 (float64 (d.Seconds()) * 1e9): it round-trips iff that product truncates to d *)
+Theorem npt_time_partial d neg m e :
+  (0 <= d)%Z -> seconds_of (Z.to_N d) = DFin neg m e -> neg = false ->
+  parse_float (format_float (DFin neg m e)) = Some (DFin neg m e) ->
+  npt_unmarshal (npt_marshal d) = Some (to_int64 (dmul_int (DFin neg m e) E9)).
+Proof.
+  intros Hd Hs Hneg Hc. unfold npt_marshal. destruct (Z.ltb_spec d 0); [lia|]. rewrite Hs.
+  destruct (format_float_chars neg m e Hneg) as [Hch Hne]. destruct (fchar_rstr _ Hch) as [_ Hcol].
+  unfold npt_unmarshal. rewrite split_on_clean by exact Hcol. rewrite Hc.
+  f_equal. cbn [N.mul N.add N.modulo]. change (wrap64 (s64z (Z.of_N (0 mod P64)) * Z.of_N E9)) with 0%Z.
+  rewrite Z.add_0_r. apply wrap64_small, to_int64_range.
+Qed.
+
+Theorem npt_codec_partial d neg m e :
+  (0 <= d)%Z -> seconds_of (Z.to_N d) = DFin neg m e -> neg = false ->
+  parse_float (format_float (DFin neg m e)) = Some (DFin neg m e) ->
+  to_int64 (dmul_int (DFin neg m e) E9) = d ->
+  codec_ok npt_unmarshal npt_marshal d.
+Proof.
+  intros Hd Hs Hneg Hc Hr. split; [rewrite (npt_time_partial d neg m e) by assumption; now rewrite Hr|].
+  unfold npt_marshal. destruct (Z.ltb_spec d 0); [lia|]. rewrite Hs.
+  destruct (format_float_chars neg m e Hneg) as [Hch Hne]. split; [apply (fchar_rstr _ Hch)|exact Hne].
+Qed.
+
+(* ---- SMPTE ---- *)
+Definition wf_smpte (t : smpte_time) : bool :=
+  (0 <=? sm_time t)%Z && (sm_time t mod 1000000000 =? 0)%Z && (sm_time t <? 9223372036854775808)%Z
+  && (sm_frame t <? 2 ^ 32) && (sm_sub t <? 2 ^ 32).
+
+Lemma fmt_uint2_digits n : all_digits (fmt_uint2 n) = true.
+Proof. unfold fmt_uint2. destruct (n <? 10); [|apply fmt_uint_digits]. unfold all_digits. cbn [forallb]. apply fmt_uint_digits. Qed.
+Lemma fmt_uint2_nonnil n : fmt_uint2 n <> [].
+Proof. unfold fmt_uint2. destruct (n <? 10); [discriminate|apply fmt_uint_nonnil]. Qed.
+Lemma parse_fmt_uint2 bits n : n < 2 ^ bits -> parse_uint bits (fmt_uint2 n) = Some n.
+Proof.
+  intros H. unfold fmt_uint2. destruct (n <? 10); [|now apply parse_fmt_uint].
+  unfold parse_uint. pose proof (fmt_uint_digits n) as Hd. unfold all_digits in Hd. cbn [forallb is_digit]. rewrite Hd.
+  cbn [digits_val andb N.leb N.compare Pos.compare Pos.compare_cont]. replace (10 * 0 + (48 - 48)) with 0 by reflexivity.
+  rewrite fmt_uint_val. destruct (N.ltb_spec n (2 ^ bits)); [reflexivity|lia].
+Qed.
+
+Lemma smpte_marshal_parts t S :
+  to_int64 (seconds_of (Z.to_N (sm_time t))) = Z.of_N S ->
+  smpte_marshal t =
+  fmt_uint (S / 3600) ++ [COL] ++ fmt_uint2 ((S mod 3600) / 60) ++ [COL] ++ fmt_uint2 ((S mod 3600) mod 60)
+  ++ (if (0 <? sm_frame t) || (0 <? sm_sub t)
+      then [COL] ++ fmt_uint2 (sm_frame t) ++ (if 0 <? sm_sub t then [DOT] ++ fmt_uint2 (sm_sub t) else [])
+      else []).
+Proof. intros H. unfold smpte_marshal. rewrite H, N2Z.id. reflexivity. Qed.
+
+Lemma digits_nocol l : all_digits l = true -> nosep COL l = true.
+Proof. intros H. apply digits_nosep; [exact H|reflexivity]. Qed.
+Lemma digits_nodot l : all_digits l = true -> nosep DOT l = true.
+Proof. intros H. apply digits_nosep; [exact H|reflexivity]. Qed.
+
+(* given that Duration.Seconds() of the whole-second time converts back exactly (a float64 fact, checked on every
+   SMPTE value by the harness), the SMPTE text codec is the identity *)
+Theorem smpte_codec_partial t :
+  wf_smpte t = true ->
+  to_int64 (seconds_of (Z.to_N (sm_time t))) = (sm_time t / 1000000000)%Z ->
+  codec_ok smpte_unmarshal smpte_marshal t.
+Proof.
+  Local Ltac Zify.zify_post_hook ::= Z.div_mod_to_equations.
+  intros Hwf Hsec. unfold wf_smpte in Hwf. rewrite !andb_true_iff in Hwf. destruct Hwf as [[[[H0 Hm] Hlt] Hf] Hs].
+  destruct t as [tm fr sf]. cbn [sm_time sm_frame sm_sub] in *.
+  set (S := Z.to_N (tm / 1000000000)).
+  assert (HS : (tm / 1000000000)%Z = Z.of_N S) by (unfold S; rewrite Z2N.id; lia).
+  rewrite HS in Hsec.
+  pose proof (smpte_marshal_parts (mkSmpte tm fr sf) S Hsec) as Em. cbn [sm_time sm_frame sm_sub] in Em.
+  assert (HSb : S < 9223372037) by lia.
+  assert (Hh : S / 3600 < 2 ^ 64). { apply N.div_lt_upper_bound; [lia|]. change (2 ^ 64) with 18446744073709551616. lia. }
+  assert (Hmi : (S mod 3600) / 60 < 2 ^ 64). { change (2 ^ 64) with 18446744073709551616. pose proof (N.mod_upper_bound S 3600). assert ((S mod 3600) / 60 < 60) by (apply N.div_lt_upper_bound; lia). lia. }
+  assert (Hse : (S mod 3600) mod 60 < 2 ^ 64). { change (2 ^ 64) with 18446744073709551616. pose proof (N.mod_upper_bound (S mod 3600) 60). lia. }
+  assert (Htot : ((S mod 3600) mod 60 + (S mod 3600) / 60 * 60 + S / 3600 * 3600) mod P64 = S).
+  { change P64 with 18446744073709551616. rewrite N.mod_small; lia. }
+  assert (Htm : wrap64 (s64z (Z.of_N S) * Z.of_N E9) = tm).
+  { unfold s64z. change (Z.of_N P63) with 9223372036854775808%Z. change (Z.of_N E9) with 1000000000%Z.
+    destruct (Z.ltb_spec (Z.of_N S) 9223372036854775808); [|lia]. rewrite wrap64_small by (change (Z.of_N P63) with 9223372036854775808%Z; lia). lia. }
+  split; [|split].
+  - (* parse *)
+    rewrite Em. unfold smpte_unmarshal. cbn [app].
+    rewrite split_on_cons by (apply digits_nocol, fmt_uint_digits).
+    rewrite split_on_cons by (apply digits_nocol, fmt_uint2_digits).
+    destruct ((0 <? fr) || (0 <? sf)) eqn:Efs.
+    + cbn [app]. rewrite split_on_cons by (apply digits_nocol, fmt_uint2_digits).
+      destruct (0 <? sf) eqn:Esf.
+      * rewrite split_on_clean by (rewrite nosep_app; rewrite (digits_nocol _ (fmt_uint2_digits fr)); cbn [app nosep forallb];
+                                    change (forallb (fun c => negb (c =? COL)) (fmt_uint2 sf)) with (nosep COL (fmt_uint2 sf));
+                                    now rewrite (digits_nocol _ (fmt_uint2_digits sf))).
+        rewrite parse_fmt_uint by exact Hh. rewrite !parse_fmt_uint2 by assumption. rewrite Htot, Htm.
+        cbn [app]. rewrite split_on_cons by (apply digits_nodot, fmt_uint2_digits).
+        rewrite split_on_clean by (apply digits_nodot, fmt_uint2_digits).
+        rewrite !parse_fmt_uint2 by lia. reflexivity.
+      * rewrite app_nil_r. rewrite split_on_clean by (apply digits_nocol, fmt_uint2_digits).
+        rewrite parse_fmt_uint by exact Hh. rewrite !parse_fmt_uint2 by assumption. rewrite Htot, Htm.
+        rewrite split_on_clean by (apply digits_nodot, fmt_uint2_digits).
+        rewrite parse_fmt_uint2 by lia. assert (sf = 0) by lia. subst sf. reflexivity.
+    + rewrite app_nil_r. rewrite split_on_clean by (apply digits_nocol, fmt_uint2_digits).
+      rewrite parse_fmt_uint by exact Hh. rewrite !parse_fmt_uint2 by assumption. rewrite Htot, Htm.
+      assert (fr = 0 /\ sf = 0) as [-> ->] by lia. reflexivity.
+  - rewrite Em. rewrite !rstr_app. rewrite (digits_rstr _ (fmt_uint_digits _)), !(digits_rstr _ (fmt_uint2_digits _)).
+    cbn [rstr forallb andb]. replace (rchar COL) with true by reflexivity. cbn [andb].
+    destruct ((0 <? fr) || (0 <? sf)); [|reflexivity]. rewrite !rstr_app, (digits_rstr _ (fmt_uint2_digits _)).
+    cbn [rstr forallb andb]. replace (rchar COL) with true by reflexivity. cbn [andb].
+    destruct (0 <? sf); [|reflexivity]. rewrite rstr_app, (digits_rstr _ (fmt_uint2_digits _)). reflexivity.
+  - rewrite Em. pose proof (fmt_uint_nonnil (S / 3600)). destruct (fmt_uint (S / 3600)); [congruence|discriminate].
 Qed.
